@@ -73,6 +73,23 @@ impl Wire {
         }
         v
     }
+    /// may a conformant server send `m` now?
+    fn server_ok(&self, m: &Msg) -> bool {
+        match m {
+            HsAccept(..) | HsRefuse(_) | HsQueryReply => self.hs == Hs::Confirm,
+            KaResponse(_) => self.accepted() && self.ka == St3::Busy,
+            PsPeers(_) => self.ps_ok() && self.ps == St3::Busy,
+            BfStartBatch | BfNoBlocks => self.accepted() && self.bf == Bf::Busy,
+            BfBlock(_) | BfBatchDone => self.accepted() && self.bf == Bf::Streaming,
+            CsAwaitReply => self.accepted() && self.cs == Cs::CanAwait,
+            CsRollForward(_) | CsRollBackward(_) => self.accepted() && (self.cs == Cs::CanAwait || self.cs == Cs::MustReply),
+            CsIntersectFound(_) | CsIntersectNotFound => self.accepted() && self.cs == Cs::Intersect,
+            LnAnnouncement(_) | LnOffer(_) | LnTxsOffer(_) | LnVotes(_) => self.leios_ok() && self.ln == St3::Busy,
+            LfBlock(_) => self.leios_ok() && self.lf == Lf::AwaitBlock,
+            LfBlockTxs(_) => self.leios_ok() && self.lf == Lf::AwaitTxs,
+            _ => false,
+        }
+    }
     fn server(&mut self, m: &Msg) {
         match m {
             HsAccept(v, ps) => self.hs = Hs::Accepted(*v, *ps),
@@ -191,9 +208,8 @@ fn gen_cmd(rng: &mut Rng, npeers: i64) -> Ev {
         33 | 34 => Ev::FetchEb(p, rng.below(5) as i64),
         35 => Ev::FetchEbTxs(p, rng.below(5) as i64),
         36 => Ev::Ban(p),
-        37 => Ev::Demote(p),
-        38 => Ev::SendTx(p),
-        _ => Ev::Hk(false),
+        37 | 38 => Ev::Demote(p),
+        _ => Ev::ContinueSync(p),
     }
 }
 
@@ -326,6 +342,67 @@ fn main() {
             let mut run = Run { recs: vec![], hist: vec![], exec_index: 0, violation: None, dead: false };
             for e in seq { sim.apply(e, &mut run, to_model, true, cfg); }
             finish(&sim, &run, cfg, "directed-async-known-class", to_model);
+        }
+    }
+    // ---- directed shapes around every emitter: command-triggered emissions while replies are pending,
+    // emissions after BanPeer / Error on a still-known peer, Sent confirmations for banned peers,
+    // re-include while connected, refused / restricted handshakes, streaming states
+    {
+        #[derive(Clone)]
+        enum D { E(Ev), ConfirmAll(i64), ConfirmUntil(i64, u16), Reply(i64, Msg) }
+        use D::*;
+        let cfg = PCfg { max_peers: 3, max_warm: 2, max_hot: 1, max_err: 1 };
+        let setup = |v: i64, ps: i64| vec![E(Ev::Include(1)), E(Ev::Hk(false)), E(Ev::Connected(1)), ConfirmAll(1), Reply(1, HsAccept(v, ps))];
+        let mut shapes: Vec<Vec<D>> = vec![];
+        for v in [13i64, 15] {
+            // chain-sync: tags while the server owes a reply (CanAwait / MustReply), and after it replied
+            shapes.push([setup(v, 1), vec![E(Ev::StartSync(1)), E(Ev::Hk(false)), ConfirmAll(1), Reply(1, KaResponse(65535)), Reply(1, CsIntersectFound(2)), Reply(1, PsPeers(vec![])),
+                E(Ev::ContinueSync(1)), E(Ev::ContinueSync(2)), ConfirmAll(1), E(Ev::ContinueSync(1)), E(Ev::Demote(1)), Reply(1, CsAwaitReply), E(Ev::ContinueSync(1)), E(Ev::Ban(1)), E(Ev::Demote(1)),
+                E(Ev::Hk(true)), ConfirmAll(1), Reply(1, CsRollForward(3)), E(Ev::ContinueSync(1)), ConfirmAll(1), Reply(1, CsRollBackward(1)), E(Ev::Demote(1)), ConfirmAll(1),
+                Reply(1, CsAwaitReply), Reply(1, CsRollForward(4)), E(Ev::Ban(1)), ConfirmAll(1), E(Ev::Hk(false)), ConfirmAll(1)]].concat());
+            // everything requested before the handshake is complete; peer sharing not negotiated
+            shapes.push(vec![E(Ev::Include(1)), E(Ev::ContinueSync(1)), E(Ev::StartSync(0)), E(Ev::RequestBlocks(1)), E(Ev::FetchEb(1, 1)), E(Ev::Hk(false)), E(Ev::Hk(true)),
+                E(Ev::Connected(1)), E(Ev::ContinueSync(1)), E(Ev::Hk(false)), ConfirmAll(1), E(Ev::ContinueSync(1)), E(Ev::Ban(1)), E(Ev::Demote(1)), E(Ev::Hk(false)),
+                Reply(1, HsAccept(v, 0)), E(Ev::ContinueSync(1)), E(Ev::Hk(false)), ConfirmAll(1), Reply(1, KaResponse(65535)), Reply(1, BfNoBlocks), Reply(1, CsIntersectNotFound), Reply(1, LfBlock(1)),
+                E(Ev::Hk(false)), ConfirmAll(1), E(Ev::ContinueSync(1)), E(Ev::Hk(true)), ConfirmAll(1)]);
+            // refused handshake / query reply: nothing may follow
+            for refuse in [HsRefuse(0), HsRefuse(2), HsQueryReply] {
+                shapes.push(vec![E(Ev::Include(1)), E(Ev::StartSync(1)), E(Ev::RequestBlocks(1)), E(Ev::FetchEb(1, 1)), E(Ev::Hk(false)), E(Ev::Connected(1)), ConfirmAll(1), Reply(1, refuse),
+                    E(Ev::Hk(false)), E(Ev::ContinueSync(1)), E(Ev::Hk(true)), E(Ev::Ban(1)), E(Ev::Hk(false)), E(Ev::Demote(1)), E(Ev::ContinueSync(1))]);
+            }
+            // one confirmation delayed (leios-notify / chain-sync) while commands reach the other emitters
+            shapes.push([setup(v, 1), vec![E(Ev::StartSync(1)), E(Ev::Hk(false)), ConfirmUntil(1, 18), Reply(1, KaResponse(65535)), Reply(1, CsIntersectFound(2)), E(Ev::ContinueSync(1)),
+                Reply(1, PsPeers(vec![2])), E(Ev::RequestBlocks(2)), E(Ev::FetchEb(1, 3)), ConfirmAll(1), Reply(1, CsRollForward(1)), E(Ev::Ban(1)), ConfirmAll(1), Reply(1, LnOffer(3)), E(Ev::Hk(false)), ConfirmAll(1)]].concat());
+            // re-include while connected: the old connection's confirmations and replies meet a fresh peer state
+            shapes.push([setup(v, 1), vec![E(Ev::StartSync(1)), E(Ev::Hk(false)), E(Ev::Include(1)), ConfirmAll(1), Reply(1, CsIntersectFound(2)), Reply(1, KaResponse(65535)), E(Ev::ContinueSync(1)), ConfirmAll(1),
+                Reply(1, CsRollForward(2)), E(Ev::Hk(false)), E(Ev::ContinueSync(1)), E(Ev::Error(1)), E(Ev::ContinueSync(1)), E(Ev::Demote(1)), E(Ev::Disconnected(1)), E(Ev::Hk(false)),
+                E(Ev::Connected(1)), ConfirmAll(1), Reply(1, HsAccept(v, 1)), E(Ev::Hk(false)), ConfirmAll(1), Reply(1, KaResponse(65535)), E(Ev::Hk(true)), ConfirmAll(1)]].concat());
+            // banned / errored peers: confirmations for a banned peer, tags after an error, reconnect
+            shapes.push([setup(v, 1), vec![E(Ev::StartSync(1)), E(Ev::Hk(false)), ConfirmAll(1), Reply(1, KaResponse(65535)), Reply(1, CsIntersectFound(1)), E(Ev::Ban(1)), E(Ev::ContinueSync(1)), ConfirmAll(1),
+                Reply(1, CsAwaitReply), E(Ev::Hk(false)), ConfirmAll(1), Reply(1, KaResponse(65535)), E(Ev::Error(1)), E(Ev::ContinueSync(1)), E(Ev::Demote(1)), E(Ev::Ban(1)), E(Ev::Hk(false)),
+                E(Ev::Disconnected(1)), E(Ev::ContinueSync(1)), E(Ev::Hk(false)), E(Ev::Include(1)), E(Ev::Hk(true))]].concat());
+            // block-fetch streaming and both leios-fetch requests, housekeeping in every intermediate state
+            shapes.push([setup(v, 1), vec![E(Ev::RequestBlocks(2)), E(Ev::RequestBlocks(3)), E(Ev::FetchEb(1, 3)), E(Ev::FetchEbTxs(1, 4)), E(Ev::FetchEb(2, 5)), E(Ev::Hk(false)), ConfirmAll(1),
+                Reply(1, BfStartBatch), Reply(1, KaResponse(65535)), E(Ev::Hk(false)), ConfirmAll(1), Reply(1, BfBlock(1)), Reply(1, LfBlock(5)), Reply(1, LnVotes(2)), E(Ev::Hk(true)), ConfirmAll(1),
+                Reply(1, BfBlock(2)), Reply(1, BfBatchDone), Reply(1, LfBlockTxs(4)), Reply(1, KaResponse(65535)), E(Ev::Hk(false)), ConfirmAll(1), Reply(1, BfNoBlocks), Reply(1, LnAnnouncement(1)), E(Ev::Hk(false)), ConfirmAll(1)]].concat());
+        }
+        for shape in &shapes {
+            for sync in [true, false] {
+                let mut sim = Sim { d: InitDriver::new(cfg), peers: HashMap::new(), sync, npeers: 2 };
+                let mut run = Run { recs: vec![], hist: vec![], exec_index: 0, violation: None, dead: false };
+                for d in shape {
+                    match d {
+                        E(e) => sim.apply(e.clone(), &mut run, to_model, true, cfg),
+                        ConfirmAll(p) => { if !sync { while let Some(m) = sim.peers.get(p).and_then(|x| if x.link == Link::Up { x.pend.first().cloned() } else { None }) {
+                            if run.dead || run.violation.is_some() { break; } sim.apply(Ev::Sent(*p, m), &mut run, to_model, true, cfg); } } }
+                        ConfirmUntil(p, proto) => { if !sync { while let Some(m) = sim.peers.get(p).and_then(|x| if x.link == Link::Up { x.pend.first().cloned() } else { None }) {
+                            if m.proto() == *proto || run.dead || run.violation.is_some() { break; } sim.apply(Ev::Sent(*p, m), &mut run, to_model, true, cfg); } } }
+                        Reply(p, m) => { let ok = sim.peers.get(p).map(|x| x.link == Link::Up && x.wire.server_ok(m) && !x.pend.iter().any(|q| q.proto() == m.proto())).unwrap_or(false);
+                            if ok { sim.apply(Ev::Recv(*p, vec![m.clone()]), &mut run, to_model, true, cfg); } }
+                    }
+                }
+                finish(&sim, &run, cfg, if sync { "directed-shapes-sync" } else { "directed-shapes-async" }, to_model);
+            }
         }
     }
     for i in 0..args.n {
